@@ -411,7 +411,13 @@ pub trait MapValidVec<T: IsNone>: Vec1View<T> {
                 } else {
                     vec.sort_unstable_by(|a, b| a.sort_cmp_rev(b)).unwrap();
                 }
-                return Box::new(vec.into_iter().take(kth + 1));
+                // pad with nulls when the series is shorter than kth + 1
+                return Box::new(
+                    vec.into_iter()
+                        .chain(std::iter::repeat(T::none()))
+                        .take(kth + 1)
+                        .to_trust(kth + 1),
+                );
             }
         }
         let mut out_c: Vec<_> = self.titer().collect_trusted_vec1(); // clone the array
